@@ -22,7 +22,9 @@ type Case struct {
 	Pipeline bool            `json:"pipeline,omitempty"` // commands pipelined behind the startup packet
 	Params   [][2]string     `json:"params,omitempty"`
 	FailErr  *script.ErrSpec `json:"fail_err,omitempty"`
-	OptSeed  int             `json:"opt_seed,omitempty"` // order in which the options are applied (middlewares keep theirs)
+	// FailNilCtx: the failing middleware returns (nil, err) rather than (ctx, err)
+	FailNilCtx bool `json:"fail_nil_ctx,omitempty"`
+	OptSeed    int  `json:"opt_seed,omitempty"` // order in which the options are applied (middlewares keep theirs)
 }
 
 func table() script.Table {
@@ -54,6 +56,7 @@ func Run(c Case) core.Result {
 		mw := script.MW{}
 		if i == c.FailAt {
 			mw.Fail = c.FailErr
+			mw.NilCtx = c.FailNilCtx
 			if mw.Fail == nil {
 				mw.Fail = &script.ErrSpec{Base: "middleware failed"}
 			}
